@@ -1,0 +1,20 @@
+//go:build verif && !amd64
+// +build verif,!amd64
+
+package gf2p16
+
+// See verif_hooks_amd64.go. On non-amd64 platforms there is no
+// dispatch flag.
+
+// VerifHasSSSE3 always returns false on this platform.
+func VerifHasSSSE3() bool {
+	return false
+}
+
+// VerifSetUseSSSE3 is a no-op on this platform.
+func VerifSetUseSSSE3(use bool) (old bool) {
+	return false
+}
+
+// VerifPlatform names the dispatch implementation compiled in.
+const VerifPlatform = "nonamd64"
